@@ -3,6 +3,7 @@ package props
 import (
 	"bytes"
 	"fmt"
+	"strings"
 
 	"github.com/tdewolff/parse/v2"
 	"github.com/tdewolff/parse/v2/js"
@@ -149,9 +150,18 @@ var c05Probes = []string{
 	"x={\"12\":1,'1.5':2,\"0\":3}", "x=()=>({m(){\"use strict\";a}})", "x=()=>{return{m(){\"use strict\"}}}", "for(async in c);",
 }
 
+// an expression-bodied arrow function at statement depth 999: the printer writes it with a block body, one statement
+// level deeper, which is the parser's limit (recorded known finding)
+var c05LimitProbe = strings.Repeat("{", 999) + "x=>y" + strings.Repeat("}", 999)
+
+func init() { c05Probes = append(c05Probes, c05LimitProbe) }
+
 func c05Probe(t *fw.T) {
 	src := c05Probes[t.Index%len(c05Probes)]
 	t.Key(fmt.Sprintf("probe:%d", t.Index%len(c05Probes)))
+	if src == c05LimitProbe {
+		t.Key("probe:arrow-at-statement-nesting-limit")
+	}
 	t.Desc(&c05Case{Kind: "probe", Src: []byte(src)})
 	for _, op := range jsOptions[:2] {
 		for _, indent := range []int{-1, 0, 4} {
